@@ -65,6 +65,10 @@ def plan_c03(pid, rng, tier):
     t_form = 300 + 40 * n + 2000
     ev.append({"at": t_form, "kind": "faults", "delay": 1, "jitter": jit, "loss": rng.choice([0, 0.1, 0.3]),
                "dup": rng.choice([0, 0.1])})
+    if pid % 4 == 3:
+        # a dead member is forgotten sooner than the longest suspicion lasts: a suspicion that nobody
+        # confirms is still running when the probe cursor wraps and reaps
+        plan["gossipDead"] = max(f["pi"], (f["mm"] * f["sm"] * f["pi"]) // 5)
     ncrash = 1 if n <= 3 else rng.choice([1, 1, 2])
     victims = rng.sample(names[1:], ncrash)
     when = rng.choice(["join", "steady", "steady", "pushpull"])
